@@ -111,6 +111,8 @@ def direct_predicates(sc, obs, stats):
     blocks = {0: {"id": 0, "parent": None, "no": 0, "bp": -1, "conf": 0}}
     prev = {}       # node -> last online observation
     irrev = {}      # node -> (LIB height, main chain up to it) that survived a real ForceReset at or above the LIB
+    ever = {}       # node -> producers that have (had) an entry in the proposal map; with a static producer set Status.Update
+                    # never removes an entry (a rollback RESETS the entries above the target), so calcLIB's quantile is over all of them
     j = 0
     need = 0 if sc.get("election") else 2 * n // 3 + 1
     for k, op in enumerate(sc["ops"]):
@@ -127,7 +129,10 @@ def direct_predicates(sc, obs, stats):
         p = prev.get(nd)
         if op[0] == "G":
             prev[nd] = o
+            ever[nd] = {e["bp"] for e in st["prpsd"] or []}
             continue
+        if op[0] == "FR":
+            ever[nd] = {e["bp"] for e in st["prpsd"] or []}
         if op[0] in ("F", "FR"):
             rh = op[2]
             stats["force_resets"] = stats.get("force_resets", 0) + 1
@@ -226,6 +231,16 @@ def direct_predicates(sc, obs, stats):
                                   {"op_index": k, "before": imain, "after": o["main"]}))
                     irrev.pop(nd)
                     break
+        # the proposal map never loses a producer (static producer set): rollbackStatusTo resets, not deletes
+        if not sc.get("election"):
+            cur = {e["bp"] for e in st["prpsd"] or []}
+            lost = sorted(ever.get(nd, set()) - cur)
+            if lost:
+                fails.append(("C08:proposal-entry-dropped",
+                              "after %s the proposal map has no entry for producers %s that had one: calcLIB takes its two-thirds "
+                              "quantile over %d instead of %d producers" % (o["res"], lost, len(cur), len(cur) + len(lost)),
+                              {"op_index": k, "prpsd": st["prpsd"]}))
+            ever[nd] = ever.get(nd, set()) | cur
         # LIB never decreases
         if st["lib_no"] < plib_no:
             fails.append(("C08:lib-decreased", "reported LIB height decreased %d -> %d" % (plib_no, st["lib_no"]),
@@ -288,12 +303,14 @@ def direct_predicates(sc, obs, stats):
             # (at an election boundary the map is filtered by the new producer set after the LIB was computed)
             boundary = sc.get("election") and (len(o["main"]) - 1) % 100 == 0
             if st["lib_no"] != plib_no and st["prpsd"] and not boundary:
-                np_ = len(st["prpsd"])
+                np_ = len(st["prpsd"]) if sc.get("election") else len(ever.get(nd, set()) | {e["bp"] for e in st["prpsd"]})
                 sup = sum(1 for e in st["prpsd"] if e["plib_no"] >= st["lib_no"])
                 stats["lib_changes"] += 1
                 if sup < np_ - (np_ - 1) // 3:
-                    fails.append(("C08:lib-without-support", "LIB %d supported by %d of %d proposals" % (st["lib_no"], sup, np_),
-                                  {"op_index": k}))
+                    fails.append(("C08:lib-without-support",
+                                  "LIB %d supported by the proposals of %d of the %d producers that have (had) an entry in the map, %d needed"
+                                  % (st["lib_no"], sup, np_, np_ - (np_ - 1) // 3),
+                                  {"op_index": k, "prpsd": st["prpsd"]}))
         prev[nd] = o
     # residue of a failed reorganisation (known finding): every predicate failure after the first
     # reorg_failed step of the scenario belongs to that class
